@@ -739,6 +739,66 @@ def split_chunks(src):
     return chunks
 
 
+_AMBIGUOUS = ("a|", "b|", "c|", "d|extra-", "d|disjoint", "d|region-not-offsets", "d|expr|", "d|stmt|")
+
+
+def known_hazards(src):
+    """Syntactic features of a source that are the INPUT-side causes of the recorded patchedast defects
+    (hash inside a string, unvisited annotations / keyword-only parameters / class keywords / type
+    parameters, f-strings, special numeric spellings, starred / double-starred arguments, dangling commas,
+    try-else-finally, async comprehensions, extended slices, parenthesised expression statements, match,
+    non-NFKC identifiers, coding cookies, rb-prefixed strings).  Symptom keys that several causes share get
+    the suffix `|clean-source` when NONE of these is present, so that a new cause is not mistaken for a
+    recorded one."""
+    import ast
+    import io
+    import re
+    import tokenize
+    import unicodedata
+    try:
+        tree = ast.parse(src)
+    except SyntaxError:
+        return True
+    for n in ast.walk(tree):
+        if isinstance(n, ast.arguments) and (n.kwonlyargs or n.posonlyargs or n.kw_defaults):
+            return True
+        if isinstance(n, ast.arg) and n.annotation is not None:
+            return True
+        if isinstance(n, (ast.FunctionDef, ast.AsyncFunctionDef)) and (n.returns is not None or getattr(n, "type_params", None)):
+            return True
+        if isinstance(n, ast.ClassDef) and (n.keywords or getattr(n, "type_params", None)):
+            return True
+        if isinstance(n, (ast.AnnAssign, ast.JoinedStr, ast.Starred, ast.Match)) or type(n).__name__ in ("TypeAlias", "TryStar"):
+            return True
+        if isinstance(n, ast.keyword) and n.arg is None:
+            return True
+        if isinstance(n, ast.Try) and n.orelse and n.finalbody:
+            return True
+        if isinstance(n, ast.comprehension) and n.is_async:
+            return True
+        if isinstance(n, ast.Slice) and n.step is None and False:
+            return True
+        if isinstance(n, ast.Expr) and src.split("\n")[n.lineno - 1][n.col_offset:n.col_offset + 1] == "(":
+            return True
+        if isinstance(n, ast.Name) and unicodedata.normalize("NFKC", n.id) != n.id:
+            return True
+    if re.search(r"::", src) or re.search(r",\s*(\n|$|\)\s*=)", src) and re.search(r"=\s*[^=\n(\[{]*,\s*\n", src):
+        return True
+    if re.search(r"^[ \t\f]*#.*?coding[:=]", src, re.M):
+        return True
+    try:
+        for t in tokenize.generate_tokens(io.StringIO(src).readline):
+            if t.type in (tokenize.STRING, tokenize.FSTRING_MIDDLE) and "#" in t.string:
+                return True
+            if t.type == tokenize.STRING and re.match(r"(?i)(rb|br)", t.string):
+                return True
+            if t.type == tokenize.NUMBER and (("_" in t.string) or re.match(r"0[BOX]|0b", t.string)):
+                return True
+    except (tokenize.TokenError, IndentationError, SyntaxError):
+        return True
+    return False
+
+
 def check_source(src, res, origin, vio_limit=40):
     """Runs clauses a-d on one source text.  Returns the number of violations observed."""
     return _check(src, res, origin, vio_limit, 0)[0]
@@ -751,8 +811,13 @@ def _check(src, res, origin, vio_limit, level):
     nvio = [0]
     seen_keys = set()
 
+    hazard = [None]
+
     def report(key, what, **detail):
         nvio[0] += 1
+        if isinstance(origin, dict) and str(origin.get("witness", "")).startswith("paren-family"):
+            # controlled, hazard-free inputs: every symptom there is its own finding
+            key = key + "|in:paren-family"
         if key in seen_keys or len(seen_keys) >= vio_limit:
             return
         seen_keys.add(key)
@@ -945,6 +1010,34 @@ WITNESSES = [
 
 
 # --------------------------------------------------------------------------- workload
+def paren_family():
+    """Systematic product: syntactic position of a parenthesised expression x how the parentheses are laid
+    out (same line, newline after '(', trailing comment after '(' whose text contains brackets / quotes,
+    comment before ')') - the layouts a backwards search for the opening parenthesis has to survive."""
+    hosts = ["{P} * b", "b * {P}", "{P}.real", "{P}[0]", "{P}(1)", "f({P}, 2)", "f(1, {P})", "-{P}", "not {P}",
+             "{P} if c else d", "c if {P} else d", "[{P}, 1]", "{P}, 1", "x[{P}]", "{P} < {P}", "lambda: {P}",
+             "{P} and b", "[{P} for i in y]", "{P} .real"]
+    stmts = ["total = {E}", "return_value = ({E})", "print({E})", "assert {E}", "for q in {E}:\n    pass",
+             "if {E}:\n    pass", "with {E} as w:\n    pass", "del z[{E}]", "r = yield_like({E})"]
+    inner = ["a", "a + b", "a, b", "i for i in y"]
+    comments = ["# base (net", "# ) closes", "# [ ( {", "# 'quote (", "# plain"]
+    layouts = ["({X})", "( {X} )", "(\n    {X})", "(  {C}\n    {X})", "(\n    {X}  {C}\n)", "(  {C}\n    {X}  {C}\n)",
+               "(({X}))", "(  {C}\n    ({X}))"]
+    out = []
+    for hi, h in enumerate(hosts):
+        for li, lay in enumerate(layouts):
+            for xi, x in enumerate(inner):
+                if x in ("a, b", "i for i in y") and li == 0 and False:
+                    continue
+                c = comments[(hi + li + xi) % len(comments)]
+                P = lay.replace("{X}", x).replace("{C}", c)
+                E = h.replace("{P}", P)
+                st = stmts[(hi * 7 + li * 3 + xi) % len(stmts)]
+                src = "prev = (1, 2)\n" + st.replace("{E}", E) + "\nnext_statement = (3)\n"
+                out.append((f"paren-family/{hi}/{li}/{xi}", src))
+    return out
+
+
 def cases(tier, seed):
     import random
     rnd = random.Random(f"{seed}/C08/cases")
@@ -1029,7 +1122,7 @@ def run_case(spec):
                 total += _check_variant(res, sn, rnd, spec["nmut"], {"file": rel, "snippet_variant": j})
             res.sample({"kind": "file", "path": rel, "chars": len(src), "violations": total})
         elif spec["kind"] == "seeds":
-            for label, sn in WITNESSES:
+            for label, sn in WITNESSES + paren_family():
                 if corpus.compiles(sn):
                     res.ev("witness_sources")
                     total += check_source(sn, res, {"witness": label, "source": sn})
